@@ -4,6 +4,7 @@ for top-level destination fields only); TLC enumerates programs (source / destin
 lists, recipes) with the symbolic plan of every destination field.  Each program is built with real dataclasses,
 impl_converter and the public providers; the converted object must equal the evaluation of the plan on tagged values."""
 import copy
+from fractions import Fraction
 import dataclasses
 import inspect
 import json
@@ -43,11 +44,16 @@ def build_recipe(case, S, D, SNm, DNm, nm):
         elif pr["t"] == "plink":
             recipe.append(link(from_param(N(pr["p"])), dst))
         elif pr["t"] == "const":
-            recipe.append(link_constant(dst, value=CONST_VALUE))
+            # (a value without literal form - it is == the tag - makes the generator register an id of its own: constant_N)
+            recipe.append(link_constant(dst, value=Fraction(CONST_VALUE) if nm.get("_nonliteral") else CONST_VALUE))
         elif pr["t"] == "allow":
             recipe.append(allow_unlinked_optional(dst))
         else:
-            recipe.append(link_function(lambda model: FUNC_VALUE, dst))
+            def the_func(model):
+                return FUNC_VALUE
+            if nm.get("the_func"):
+                the_func.__name__ = the_func.__qualname__ = nm["the_func"]
+            recipe.append(link_function(the_func, dst))
     return recipe
 
 
@@ -286,6 +292,11 @@ HOSTILE_NAME_TABLES = [
      "Dst": "D", "convert_it": "coercer"},
     {"_table": 5, "a": "a", "b": "b", "c": "c", "n": "n", "p": "p", "srcmodel": "src", "SrcNested": "N²", "DstNested": "M\u0660", "Src": "S²",
      "Dst": "D①", "convert_it": "a²"},
+    # classes and functions named like the ids the converter generator makes up for itself (constant_N, func_N, accessor_N)
+    {"_table": 6, "a": "a", "b": "b", "c": "c", "n": "n", "p": "p", "srcmodel": "src", "SrcNested": "constant_1", "DstNested": "func_0",
+     "Src": "accessor_0", "Dst": "constant_0", "convert_it": "func_1", "the_func": "constant_0", "_nonliteral": True},
+    {"_table": 7, "a": "a", "b": "b", "c": "c", "n": "n", "p": "p", "srcmodel": "src", "SrcNested": "Same", "DstNested": "Other",
+     "Src": "Same", "Dst": "Other", "convert_it": "convert_Same_to_Other", "the_func": "coerce_Same_to_Other", "_nonliteral": True},
     {"_table": 2, "a": "переменная", "b": "ñ", "c": "δ", "n": "变量", "p": "π", "srcmodel": "источник", "SrcNested": "Ünï", "DstNested": "Ωmega",
      "Src": "Модель", "Dst": "Цель", "convert_it": "преобразовать"},
 ]
